@@ -55,6 +55,14 @@ def scenarios(ck):
         yield {'program': spec, 'backend': X.pick_backend(rng, (5, 2, 0, 2)), 'prefill': list(range(n)), 'keep_going': True, 'keep_failed': rng.random() < 0.5,
                'recursion_slack': 150, 'deep': True,
                'phases': [{'workers': X.gen_workers(rng, nw), 'policy': X.gen_policy(rng, nw)}]}
+    # wide programs: a failing task with 130-250 dependents queued in front of independent tasks (the scheduler looks at most 128 blocked
+    # tasks ahead before it falls back to a full scan; rare and cheap: the dependents never run)
+    for i in range(ck.n(2, 12)):
+        nd = rng.choice([130, 135, 160, 250])
+        spec = X.wide_program(nd, rng.randint(2, 4), fail=True, before=rng.choice([0, 0, 1]))
+        nw = rng.choice([1, 1, 2])
+        yield {'program': spec, 'backend': X.pick_backend(rng, (6, 1, 0, 2)), 'prefill': [], 'keep_going': True, 'keep_failed': rng.random() < 0.5,
+               'wide': True, 'phases': [{'workers': [{'nr_wait': rng.choice([1, 2])} for _ in range(nw)], 'policy': X.gen_policy(rng, nw, 'random')}]}
     for i in range(n_rand):
         spec = X.gen_program(rng, rng.randint(2, 7), clean=rng.random() < 0.3, rich=rng.choice([0.3, 0.7]),
                              p_raise=rng.choice([0.15, 0.3, 0.5]), use_map=rng.random() < 0.1)
@@ -84,6 +92,8 @@ def run(ck):
         res = b.run(sc, ORACLES)
         if res is not None:
             ck.count('flags:kg=%d,kf=%d' % (sc['keep_going'], sc['keep_failed']))
+            if sc.get('wide'):
+                ck.count('wide programs (more than 128 blocked tasks queued ahead of a runnable one)')
             if sc.get('deep'):
                 ck.count('deep-chain programs (lowered recursion limit)')
             ck.count('raises-in-run:%d' % min(3, sum(1 for e in res.trace if e[0] == 'ERaise')))
